@@ -191,3 +191,28 @@ def u_mvn_log_prob(ip):
     d = Obj(cls, {"_loc": z3.Const("loc", U), "_prec": z3.Const("P", U), "_rank": rank, "_log_pdet": lpd, "_tol": z3.RealVal("1/1000000")})
     r = ip.call(method(ip, d, "_log_prob"), [z3.Const("x", U)], {})
     c.oblige("log_density_formula", r == (-q - (rank * LOG(2 * z3.Real("pi")) - lpd)) / 2)
+
+
+@unit("C18.rank_and_log_pdet", "C18", [f"{MVN}::_rank", f"{MVN}::_log_pdet"],
+      assumptions=["dimension fixed to 3 in this unit (eigenvalue vector of length 3, arbitrary real entries); A-REAL; T: eigvalsh returns the eigenvalues in ascending order"])
+def u_rank_logpdet(ip):
+    """_rank counts the eigenvalues above the tolerance; _log_pdet without a rank sums the logs of exactly those; with a supplied rank r
+    it sums the logs of the r LARGEST eigenvalues (positions m-r..m-1 of the ascending vector) and nothing else - whatever their size."""
+    from pyvc.models_jax import CVec
+    c = ip.ctx
+    ev = CVec([c.fresh(f"ev{i}", Real) for i in range(3)])
+    tol = c.fresh("tol", Real)
+    c.assume(And(ev[0] <= ev[1], ev[1] <= ev[2], tol > 0))
+    r = ip.call(ip.repo(f"{MVN}::_rank"), [ev], {"tol": tol})
+    c.oblige("rank_counts_eigenvalues_above_tol", to_sort(r, Int) == sum(If(e > tol, 1, 0) for e in ev))
+    lp = ip.call(ip.repo(f"{MVN}::_log_pdet"), [ev], {"rank": None, "tol": tol})
+    c.oblige("log_pdet_without_rank", to_sort(lp, Real) == sum(If(e > tol, LOG(e), LOG(z3.RealVal(1))) for e in ev))
+    c.assume(LOG(z3.RealVal(1)) == 0)
+    for rk in range(4):
+        lp_r = ip.call(ip.repo(f"{MVN}::_log_pdet"), [ev], {"rank": rk, "tol": tol})
+        want = sum((LOG(ev[i]) for i in range(3 - rk, 3)), z3.RealVal(0))
+        c.oblige(f"log_pdet_with_rank_{rk}_sums_the_largest", to_sort(lp_r, Real) == want)
+    rs = c.fresh("rank_sym", Int)
+    c.assume(And(rs >= 0, rs <= 3))
+    lp_s = ip.call(ip.repo(f"{MVN}::_log_pdet"), [ev], {"rank": rs, "tol": tol})
+    c.oblige("log_pdet_with_symbolic_rank", to_sort(lp_s, Real) == sum((If(i >= 3 - rs, LOG(ev[i]), z3.RealVal(0)) for i in range(3)), z3.RealVal(0)))
